@@ -49,6 +49,31 @@ def run(ctx):
     ctx.rule("W7", "crossbar access matrix is indexed [master][slave]: decoders take rows, arbiters take columns", min_sites=2)
     from ..rules_xbar import crossbar_shape
     crossbar_shape(ctx, "W7", WB, "Crossbar", "Decoder", "Arbiter")
+    # W8: every internal bus carries the full address of every master (constructors interpreted, lxs/pyconst.py, on masters of
+    # different address widths in both orders): the decoder must see the bits that tell a mapped from an unmapped address
+    ctx.rule("W8", "internal busses of InterconnectShared / Crossbar are as wide as the widest master's address (no master's upper "
+                   "address bits are cut before the decoder)", min_sites=2)
+    from .. import pyconst
+    wm = ctx.mod(WB)
+    for cls in ("InterconnectShared", "Crossbar"):
+        fn = wm.method(cls, "__init__")
+        bad, n_if = None, 0
+        for widths in ([8, 12], [12, 8], [10, 10, 30], [30]):
+            masters = [pyconst.NS(adr_width=w, data_width=32, __cls__=("Interface",)) for w in widths]
+            slaves = [(pyconst.Tok("match", i), pyconst.NS(adr_width=30, data_width=32)) for i in range(2)]
+            it = pyconst.Interp({"self": pyconst.NS(), "masters": masters, "slaves": slaves, "register": False, "timeout_cycles": 100}, objects=True)
+            try:
+                it.run(fn.body)
+            except Exception as ex:
+                ctx.need(False, f"{cls}.__init__ cannot be interpreted ({ex})")
+            ifs = [o for o in it.created if o.cls == "Interface"]
+            n_if += len(ifs)
+            for o in ifs:
+                aw = o.kwargs.get("adr_width")
+                if aw != max(widths) and bad is None:
+                    bad = f"masters with address widths {widths}: an internal Interface is built with adr_width={aw}: the upper address bits of the " \
+                          f"wider master never reach the decoder, its access to a high / unmapped address selects a slave of the low range"
+        ctx.ob("W8", WB, cls, "internal bus address width = widest master", bad is None and n_if >= 4, bad or f"only {n_if} internal interfaces built", fn)
     from .c11 import wb_timeout_body, timeout_in_interconnect
     wb_timeout_body(ctx, "W6")
     timeout_in_interconnect(ctx, WB, "InterconnectShared", "Timeout", "Decoder", r1="W6", r2="W6")
